@@ -327,6 +327,11 @@ def directed():
         g.query(g.join(a, b, 'full', g.and_(eq, g.cmp('>', g.column('B', 'w'), g.lit(10)))),
                 select=(g.column('A', 'x'), g.column('B', 'w'))),
         g.query(g.join(a, b, 'inner', eq), select=(g.column('B', 'w'),), orderby=((g.column('A', 's'), 'asc'),)),
+        # a grouped statement ordered by aggregates over columns used nowhere else
+        g.query(a, select=(g.column('A', 'x'), g.alias(g.agg('count', g.column('A', 'y')), 'n')), groupby=(g.column('A', 'x'),),
+                orderby=((g.agg('max', g.column('A', 'z')), 'desc'), (g.column('A', 'x'), 'asc'))),
+        g.query(g.join(a, b, 'inner', eq), select=(g.column('A', 'x'), g.alias(g.agg('count', g.column('A', 'y')), 'n')),
+                groupby=(g.column('A', 'x'),), orderby=((g.agg('sum', g.column('B', 'w')), 'asc'), (g.column('A', 'x'), 'asc'))),
     ] + nested_outer_joins()
 
 
